@@ -849,6 +849,13 @@ func (c *vT) run(check int, lq int) {
 	case 14:
 		q := vString("q", lq)
 		c.checkC14(q)
+		if vParamDef("allkeys", 0) == 1 {
+			// every indexed key as the query: reaches every leaf position of the packed
+			// leaf bytes (first/last word, partial last word), whatever the key lengths
+			for j := 0; j < c.n; j++ {
+				c.checkC14(c.keys[j])
+			}
+		}
 	case 18:
 		c.checkC18()
 	}
